@@ -830,6 +830,8 @@ class SymEx:
                 for s3, r in self.ev(e.right, s2, func):
                     out.append((s3, self.binop(e, l, r)))
             return out
+        if isinstance(e, ast.Call) and is_name(e.func, 'isinstance') and len(e.args) == 2:
+            return [(s2, Const(br)) for br, s2 in self.cond(e, st, func)]
         if isinstance(e, ast.Call):
             return self.call(e, st, func)
         if isinstance(e, ast.JoinedStr):
